@@ -250,10 +250,22 @@ def eval_under_flag(e, flag: str, val: bool, rd=None, depth: int = 0):
         if rd is not None:
             ds = list(rd.defs_of(e))
             vals = set()
+            pm_ = getattr(rd, "_pm_cache", None)
+            if pm_ is None and getattr(rd, "func", None) is not None:
+                pm_ = rd._pm_cache = parent_map(rd.func)
             for d in ds:
                 if d.kind != "assign" or d.value is None:
                     return None
-                # a definition guarded by the flag itself only counts on its side
+                # a definition guarded by the flag itself only counts on its side (`if flag: x = 1 else: x = 0`)
+                st_ = getattr(d, "stmt", None)
+                if pm_ is not None and st_ is not None:
+                    contra = False
+                    for t_, pol_ in guards_of(pm_, st_):
+                        tv = eval_under_flag(t_, flag, val, None, depth + 1)
+                        if tv is not None and bool(tv) != pol_:
+                            contra = True
+                    if contra:
+                        continue
                 vals.add(eval_under_flag(d.value, flag, val, rd, depth + 1))
             if len(vals) == 1:
                 return vals.pop()
